@@ -23,7 +23,14 @@ for p in props:
             "engine": "pyvc",
             "level_claimed": {"category": cfg["level"], "text": cfg["level_text"], "design_ref": f"DESIGN.md section 7 ({pid})"},
             "level_note": cfg["level_note"],
-            "technique": cfg.get("technique", "contract-based deductive verification: VCs generated from the real AST against sidecar contracts, discharged by z3/cvc5; bounded native layer as labelled stand-in"),
+            "technique": cfg.get("technique", (
+                "contract-based deductive verification decides every clause: verification conditions generated from the real AST of %d function contract(s)%s "
+                "against sidecar contracts, discharged by z3 / cvc5 for all inputs; the bounded native layer only re-checks the same clauses (labelled bounded)"
+                if cfg["level"] == "proof" else
+                "contract-based deductive verification decides the clauses listed as proved in level_claimed.text: verification conditions generated from the real "
+                "AST of %d function contract(s)%s against sidecar contracts, discharged by z3 / cvc5 for all inputs; the clauses listed as bounded are decided by the "
+                "native layer (enumeration / sampling against an independent oracle, labelled bounded, never counted as proved)")
+                % (len(cfg.get("functions", [])), (" and %d lemma(s)" % len(cfg["lemmas"])) if cfg.get("lemmas") else "")),
         })
     else:
         na.append({"property_id": pid, "reason": NOT_BUILT.get(pid, "check not built yet (work in progress, see DESIGN.md section 12)")})
